@@ -314,7 +314,9 @@ impl Ticks {
 
 // --- workload pieces ---
 
-const FILES: &[&str] = &["a", "b", "d/c", "d/e/f", "x", "ign", "igd/g"];
+// "a2" and "d2/h" are siblings whose names merely start with another path's
+// name ("a", "d"): prefix handling must be per path component, not per byte
+const FILES: &[&str] = &["a", "a2", "b", "d/c", "d/e/f", "d2/h", "x", "ign", "igd/g"];
 const GITIGNORE: &str = "/ign\n/igd/\n";
 
 /// Root ignore file variants and nested (`d/.gitignore`) variants the
@@ -426,7 +428,7 @@ fn gen_tree(env: &Env, ch: &mut Chooser, tag: &str, allow_conflicts: bool) -> Me
     let store = &env.store;
     let mut b = MergedTreeBuilder::new(store.empty_merged_tree());
     b.set_or_remove(rp(".gitignore"), Merge::normal(file_value(store, ".gitignore", GITIGNORE.as_bytes(), false)));
-    for (i, p) in ["a", "b", "d/c", "d/e/f", "x"].iter().enumerate() {
+    for (i, p) in ["a", "a2", "b", "d/c", "d/e/f", "d2/h", "x"].iter().enumerate() {
         // "d" may be a file instead of a directory
         match ch.weighted(&[5, 3, 1, if allow_conflicts { 3 } else { 0 }]) {
             0 => {
@@ -1364,7 +1366,7 @@ impl Run<'_> {
         for p in remove_special_files(&self.env.ws) {
             self.note(format!("user removes fifo {p}"));
         }
-        let choices: [&[&str]; 5] = [&[""], &["d"], &["a", "d/e"], &["b", "x"], &[]];
+        let choices: [&[&str]; 9] = [&[""], &["d"], &["a", "d/e"], &["b", "x"], &[], &["a", "a2"], &["d2", "d"], &["d", "d/e", "a2"], &["d/e", "d"]];
         let pats: Vec<RepoPathBuf> = choices[self.ch.choose(choices.len())]
             .iter()
             .map(|p| if p.is_empty() { RepoPathBuf::root() } else { rp(p) })
